@@ -4,7 +4,10 @@
 package cache
 
 import (
+	"fmt"
+	"reflect"
 	"runtime"
+	"sort"
 
 	"github.com/bool64/cache/zzverifsim"
 )
@@ -53,10 +56,30 @@ func (f *Failover) VerifKeyLockNames() []string {
 	zzverifsim.MuLock("verif-hook", &f.lock)
 	defer zzverifsim.MuUnlock("verif-hook", &f.lock)
 
-	out := make([]string, 0, len(f.keyLocks))
-	for k := range f.keyLocks {
-		out = append(out, k)
+	return verifMapKeyNames(f.keyLocks)
+}
+
+// verifMapKeyNames lists the keys of the key-lock table by reflection, so that the hook keeps compiling when
+// the table's key type changes: string keys are reported as they are, keys of any other type as "#<value>"
+// (the harness then no longer knows which Get a lock belongs to and treats every key as possibly locked).
+func verifMapKeyNames(m interface{}) []string {
+	v := reflect.ValueOf(m)
+	if v.Kind() != reflect.Map {
+		return []string{"#unknown"}
 	}
+
+	keys := v.MapKeys()
+	out := make([]string, 0, len(keys))
+
+	for _, k := range keys {
+		if k.Kind() == reflect.String {
+			out = append(out, k.String())
+		} else {
+			out = append(out, fmt.Sprintf("#%v", k.Interface()))
+		}
+	}
+
+	sort.Strings(out)
 
 	return out
 }
